@@ -157,10 +157,41 @@ pub fn run(ctx: &mut Ctx, replay: Option<&str>) {
                     plant(&mut both, at, "...", json!("user-data"), &mut r);
                     cases.push((IssueArgs { claims: both, strategy: st.clone(), holder: None, decoy: false, fmt: Fmt::Compact, key: crate::keys::KeyId::IssuerEc, alg: None, queue: None }, true));
                 }
-                if k == 0 {
+                if k < 4 {
+                    // the control under every kind of strategy (k % 4 picks it): never refused
                     cases.push((IssueArgs { claims: claims.clone(), strategy: st, holder: None, decoy: false, fmt: Fmt::Compact, key: crate::keys::KeyId::IssuerEc, alg: None, queue: None }, false));
                 }
                 ctx.count("planted.in_notable_claim_set");
+            }
+        }
+    }
+    if replay.is_none() {
+        // names that merely CONTAIN or begin with the reserved spellings are ordinary names, also in Custom paths: issued
+        let now = crate::imp::now();
+        for (k, (claims, paths)) in [
+            (json!({"motto...": "x", "a...b": {"c": 1}, "_sd.": 2, "x_sd": [1, {"..._": 3}]}), vec!["$.motto...", "$.a...b.c", "$.x_sd[1]...._", "$._sd."]),
+            (json!({"...x": 1, "_sdx": 1, "s": {"_sd_": [1, 2], "…": "ellipsis"}}), vec!["$....x", "$.s._sd_[0]", "$.s.…"]),
+            (json!({"_sd_alg_": "user", "sd": {"_": 1}, "..": {"...a": [true]}, ". . .": 5}), vec!["$.sd._", "$.. . .", "$......a[0]"]),
+        ].into_iter().enumerate() {
+            let mut c = claims.clone();
+            c["iss"] = json!("https://issuer.example");
+            c["exp"] = json!(now + 100000);
+            for st in [Strategy::All, Strategy::Top, Strategy::None, Strategy::Custom(paths.iter().map(|p| p.to_string()).collect()), Strategy::Custom(vec![paths[0].to_string()])] {
+                cases.push((IssueArgs { claims: c.clone(), strategy: st, holder: None, decoy: k % 2 == 0, fmt: if k % 2 == 0 { Fmt::Json } else { Fmt::Compact }, key: crate::keys::KeyId::IssuerEc, alg: None, queue: None }, false));
+                ctx.count("control.names_containing_reserved_spellings");
+            }
+        }
+        // a reserved name inside the value of a member that the library itself treats specially (outside the quantifier's claim
+        // sets, inside the statement: "any object anywhere")
+        for (k, holder_name) in ["_sd_alg", "cnf", "iss_", "aud", "nbf", "sub", "iat", "exp"].iter().enumerate() {
+            for reserved in ["_sd", "..."] {
+                let inner = if k % 2 == 0 { json!({"x": {reserved: ["y"]}}) } else { json!([1, {reserved: "y"}]) };
+                let mut c = json!({"iss": "https://issuer.example", "exp": now + 100000, "plain": 1});
+                c[*holder_name] = inner;
+                for st in [Strategy::All, Strategy::None] {
+                    cases.push((IssueArgs { claims: c.clone(), strategy: st, holder: None, decoy: false, fmt: Fmt::Compact, key: crate::keys::KeyId::IssuerEc, alg: None, queue: None }, true));
+                    ctx.count("planted.inside_a_specially_treated_member");
+                }
             }
         }
     }
